@@ -14,5 +14,11 @@ theorem fact_t_Reset : F1.Generated.skel_t_Reset = F1.Expected.skel_t_Reset := b
 theorem fact_t_teardown : F1.Generated.skel_t_teardown = F1.Expected.skel_t_teardown := by rfl
 theorem fact_active_Run : F1.Generated.skel_active_Run = F1.Expected.skel_active_Run := by rfl
 theorem fact_manager_makeIterationStatePool : F1.Generated.skel_manager_makeIterationStatePool = F1.Expected.skel_manager_makeIterationStatePool := by rfl
+theorem fact_t_Errorf : F1.Generated.skel_t_Errorf = F1.Expected.skel_t_Errorf := by rfl
+theorem fact_t_Error : F1.Generated.skel_t_Error = F1.Expected.skel_t_Error := by rfl
+theorem fact_t_Fatalf : F1.Generated.skel_t_Fatalf = F1.Expected.skel_t_Fatalf := by rfl
+theorem fact_t_Fatal : F1.Generated.skel_t_Fatal = F1.Expected.skel_t_Fatal := by rfl
+theorem fact_t_Failed : F1.Generated.skel_t_Failed = F1.Expected.skel_t_Failed := by rfl
+theorem fact_active_newIterationState : F1.Generated.skel_active_newIterationState = F1.Expected.skel_active_newIterationState := by rfl
 
 end F1.Props.FactsC07
